@@ -610,6 +610,66 @@ def overlap_program(rnd):
     }
 
 
+def equalise_items(prog, rnd, p=0.5):
+    """Make some yields ask for the SAME key from two different batch kinds (request objects compare by key): the two
+    items are equal but not identical, and sit in different pending batches."""
+    n = 0
+    for node in prog["nodes"]:
+        for st in lang.iter_stmts(node["body"]):
+            if st[0] != "yield":
+                continue
+            items = [l for l in lang.iter_leaves(st[1]) if l[0] == "item"]
+            for a, b in zip(items, items[1:]):
+                if a[1] != b[1] and rnd.random() < p:
+                    b[2] = a[2]
+                    n += 1
+    return n
+
+
+def survivor_program(rnd):
+    """A task makes a synchronous asynq call that runs away and is stopped by the (lowered) MAX_TASK_STACK_SIZE
+    guard, catches the RuntimeError - and goes on: FURTHER synchronous calls, contexts entered afterwards, batched
+    work. It is still a running task, and everything about it has to keep working."""
+    n = [0]
+
+    def item(kind):
+        n[0] += 1
+        return ["leaf", ["item", kind, "sv%d" % n[0]]]
+
+    runaway = ["leaf", [rnd.choice(["runaway", "runaway", "lazyrunaway"]), rnd.choice([150, 400]), rnd.choice([0, 0, 1, 2, 3])]]
+    deep = [["yield", runaway]]
+    if rnd.random() < 0.5:
+        deep.insert(0, ["yield", item(1)])
+    after = [["sync", "sv_s2", 3, rnd.choice(["call", "value"])], ["read", "sv0"]]
+    if rnd.random() < 0.6:
+        after += [["with", rnd.choice([["actx", "sv_ctx"], ["ov", "sv0", 88], ["attr", "at0", 89]]), [["yield", item(rnd.randrange(2))], ["read", "sv0"], ["read", "at0"]]]]
+    if rnd.random() < 0.5:
+        after += [["sync", "sv_s3", 3, "call"]]
+    after += [["yield", ["tuple", [item(0), item(1)]]]]
+    survivor = [["yield", item(0)]] if rnd.random() < 0.5 else []
+    survivor += [["try", [["sync", "sv_s1", 2, rnd.choice(["call", "value"])]], "exc", [], []]] + after
+    helper = [["yield", item(rnd.randrange(2))]] if rnd.random() < 0.7 else []
+    top = rnd.random() < 0.4
+    nodes = [
+        {"style": "asynq", "ret": "return", "body": survivor if top else [["yield", ["list", [["leaf", ["call", "sv_c1", 1]], item(1)]]], ["yield", item(0)]]},
+        {"style": rnd.choice(["asynq", "method"]), "ret": "return", "body": [["yield", item(1)]] if top else survivor},
+        {"style": "asynq", "ret": "return", "body": deep},
+        {"style": rnd.choice(["asynq", "plain"]), "ret": "return", "body": helper if True else []},
+    ]
+    if nodes[3]["style"] == "plain":
+        nodes[3]["body"] = []
+    return {
+        "nodes": nodes,
+        "root": 0,
+        "shared": [],
+        "kinds": 2,
+        "faults": {},
+        "flush_faults": {},
+        "max_stack": rnd.choice([40, 90]),
+        "defaults": {"sv0": "dflt-sv0", "sv1": "dflt-sv1", "at0": "dflt-at0"},
+    }
+
+
 def strip_reads_under_shared(prog):
     """Remove read statements from all nodes reachable from a shared task."""
     seen = set()
